@@ -1,6 +1,8 @@
 import Skc.Proofs.Perm
 import Skc.Proofs.ElectrePerm
 import Skc.Proofs.RankerPerm
+import Skc.Proofs.TransformPerm
+import Skc.Props.C13
 set_option linter.unusedSectionVars false
 set_option linter.unusedVariables false
 
@@ -19,11 +21,17 @@ outranking relation and kernel, and ELECTRE2's weight-comparison relation (as sp
 are proved to follow the alternatives under `σ` and to ignore the order of the criteria under `τ`; the
 strong / weak graphs are cell-wise functions of these; the ELECTRE2 distillation loop, the inverse
 ranking and the final ranking are proved equivariant under any relabelling of the graph
-(`electre2_direct_relabel`, `electre2_inverted_relabel`, `electre2_rank_relabel`).  **Not in Lean
-(harness only):** the transformers that pipelines
-put in front of a method (their own permutation theorems are in `Props/C13.lean` for the weighters;
-scalers and inverters act per criterion, `Props/C11.lean` `*_column_local`).  `harness/props/c05.py`
-runs both presentations of every case on the real code for those too, and compares by label.
+(`electre2_direct_relabel`, `electre2_inverted_relabel`, `electre2_rank_relabel`).
+
+**Transformers and pipelines** (section `transformers`, model `Skc/Model/Scalers.lean` and
+`Skc/Model/Weighters.lean`): every scaler, shifter and objective inverter — kernel by kernel for the
+matrix and for the weights, then as a class on `Data m n α` — and every weighter commutes with
+`Data.permute σ τ` (the problem written down in another order); so does any finite pipeline of them
+(`pipeline_permute`), and followed by a method that follows the alternatives and ignores the order of
+the criteria, every named alternative gets the same score and rank in both presentations
+(`pipeline_score_presentation`, `pipeline_rank_presentation`, `pipeline_score_by_name`).
+`harness/props/c05.py` runs both presentations of every case on the real code for those too, and
+compares by label.
 
 Exact arithmetic: the theorems hold over every linear ordered field (`ℚ` is what the driver runs) and
 over `ℝ` for the kernels with `sqrt`/`log`; floating-point summation order is not modelled, which is
@@ -507,6 +515,359 @@ theorem relabel_of_perm (k : ℕ) (σ : Equiv.Perm (Fin k)) :
     have := σ.injective (Fin.ext hab)
     exact Fin.mk.inj_iff.mp this
 end electre
+
+/-! ## 7. transformers: pipelines that put scalers, objective inverters and weighters in front of a method
+
+`σ` lists the alternatives in another order, `τ` the criteria together with their objectives and
+weights.  Model: `Skc/Model/Scalers.lean` (`…M` is the call a class makes for the matrix, `axis=0`;
+`…V` the call it makes for the weights, `axis=None`; the scikit-learn estimators see the weights as
+one column, `runSklearnV`).  Kernels with a square root (`scaleByVector…`, `standardScale`) are stated
+for any field with a `MathFns` instance — `ℝ` with `Real.sqrt` (`instMathFnsReal`) is one: nothing about
+`sqrt` is used except that it is a function. -/
+section transformers
+open Skc.Scalers
+
+section field
+variable {α : Type} [Field α] [LinearOrder α] [IsStrictOrderedRing α]
+
+/-! ### 7.1 the matrix: every cell follows its alternative (`σ`) and its criterion (`τ`)
+Row statements: the per-criterion reductions (`np.sum`, `np.max`, `np.min`, `np.any` along `axis=0`)
+do not depend on the order of the alternatives.  Column statements: output column `j` is computed
+from input column `j` (and objective `j`) alone, so they hold by unfolding. -/
+
+/-- SumScaler -/
+theorem sumScale_row_perm (A : Mat m n α) (σ : Equiv.Perm (Fin m)) (i : Fin m) (j : Fin n) :
+    scaleBySumM (fun i => A (σ i)) i j = scaleBySumM A (σ i) j := scaleBySumM_rowPerm A σ i j
+theorem sumScale_col_perm (A : Mat m n α) (τ : Equiv.Perm (Fin n)) (i : Fin m) (j : Fin n) :
+    scaleBySumM (fun i j => A i (τ j)) i j = scaleBySumM A i (τ j) := rfl
+
+/-- VectorScaler -/
+theorem vectorScale_row_perm [MathFns α] (A : Mat m n α) (σ : Equiv.Perm (Fin m)) (i : Fin m) (j : Fin n) :
+    scaleByVectorM (fun i => A (σ i)) i j = scaleByVectorM A (σ i) j := scaleByVectorM_rowPerm A σ i j
+theorem vectorScale_col_perm [MathFns α] (A : Mat m n α) (τ : Equiv.Perm (Fin n)) (i : Fin m) (j : Fin n) :
+    scaleByVectorM (fun i j => A i (τ j)) i j = scaleByVectorM A i (τ j) := rfl
+
+/-- MaxAbsScaler -/
+theorem maxAbsScale_row_perm [NeZero m] (A : Mat m n α) (σ : Equiv.Perm (Fin m)) (i : Fin m) (j : Fin n) :
+    maxAbsScale (fun i => A (σ i)) i j = maxAbsScale A (σ i) j := maxAbsScale_rowPerm A σ i j
+theorem maxAbsScale_col_perm [NeZero m] (A : Mat m n α) (τ : Equiv.Perm (Fin n)) (i : Fin m) (j : Fin n) :
+    maxAbsScale (fun i j => A i (τ j)) i j = maxAbsScale A i (τ j) := rfl
+
+/-- MinMaxScaler (any `criteria_range`, with or without `clip`) -/
+theorem minMaxScale_row_perm [NeZero m] (lo hi : α) (clip : Bool) (A : Mat m n α) (σ : Equiv.Perm (Fin m))
+    (i : Fin m) (j : Fin n) :
+    minMaxScale lo hi clip (fun i => A (σ i)) i j = minMaxScale lo hi clip A (σ i) j :=
+  minMaxScale_rowPerm lo hi clip A σ i j
+theorem minMaxScale_col_perm [NeZero m] (lo hi : α) (clip : Bool) (A : Mat m n α) (τ : Equiv.Perm (Fin n))
+    (i : Fin m) (j : Fin n) :
+    minMaxScale lo hi clip (fun i j => A i (τ j)) i j = minMaxScale lo hi clip A i (τ j) := rfl
+
+/-- StandarScaler (any `with_mean` / `with_std`) -/
+theorem standardScale_row_perm [MathFns α] (withMean withStd : Bool) (A : Mat m n α) (σ : Equiv.Perm (Fin m))
+    (i : Fin m) (j : Fin n) :
+    standardScale withMean withStd (fun i => A (σ i)) i j = standardScale withMean withStd A (σ i) j :=
+  standardScale_rowPerm withMean withStd A σ i j
+theorem standardScale_col_perm [MathFns α] (withMean withStd : Bool) (A : Mat m n α) (τ : Equiv.Perm (Fin n))
+    (i : Fin m) (j : Fin n) :
+    standardScale withMean withStd (fun i j => A i (τ j)) i j = standardScale withMean withStd A i (τ j) := rfl
+
+/-- CenitDistanceMatrixScaler (reads the objectives: they travel with the criteria) -/
+theorem cenitScale_row_perm [NeZero m] (A : Mat m n α) (o : Vec n Obj) (σ : Equiv.Perm (Fin m)) (i : Fin m) (j : Fin n) :
+    cenitScale (fun i => A (σ i)) o i j = cenitScale A o (σ i) j := cenitScale_rowPerm A o σ i j
+theorem cenitScale_col_perm [NeZero m] (A : Mat m n α) (o : Vec n Obj) (τ : Equiv.Perm (Fin n)) (i : Fin m) (j : Fin n) :
+    cenitScale (fun i j => A i (τ j)) (o ∘ τ) i j = cenitScale A o i (τ j) := rfl
+
+/-- PushNegatives -/
+theorem pushNegatives_row_perm [NeZero m] (A : Mat m n α) (σ : Equiv.Perm (Fin m)) (i : Fin m) (j : Fin n) :
+    pushNegativesM (fun i => A (σ i)) i j = pushNegativesM A (σ i) j := pushNegativesM_rowPerm A σ i j
+theorem pushNegatives_col_perm [NeZero m] (A : Mat m n α) (τ : Equiv.Perm (Fin n)) (i : Fin m) (j : Fin n) :
+    pushNegativesM (fun i j => A i (τ j)) i j = pushNegativesM A i (τ j) := rfl
+
+/-- AddValueToZero -/
+theorem addValueToZero_row_perm (v : α) (A : Mat m n α) (σ : Equiv.Perm (Fin m)) (i : Fin m) (j : Fin n) :
+    addValueToZeroM v (fun i => A (σ i)) i j = addValueToZeroM v A (σ i) j := addValueToZeroM_rowPerm v A σ i j
+theorem addValueToZero_col_perm (v : α) (A : Mat m n α) (τ : Equiv.Perm (Fin n)) (i : Fin m) (j : Fin n) :
+    addValueToZeroM v (fun i j => A i (τ j)) i j = addValueToZeroM v A i (τ j) := rfl
+
+/-- NegateMinimize / InvertMinimize: cell-wise, steered by the criterion's own objective -/
+theorem negateMinimize_row_perm (A : Mat m n α) (o : Vec n Obj) (σ : Equiv.Perm (Fin m)) (i : Fin m) (j : Fin n) :
+    negateMinimize (fun i => A (σ i)) o i j = negateMinimize A o (σ i) j := rfl
+theorem negateMinimize_col_perm (A : Mat m n α) (o : Vec n Obj) (τ : Equiv.Perm (Fin n)) (i : Fin m) (j : Fin n) :
+    negateMinimize (fun i j => A i (τ j)) (o ∘ τ) i j = negateMinimize A o i (τ j) := rfl
+theorem invertMinimize_row_perm (A : Mat m n α) (o : Vec n Obj) (σ : Equiv.Perm (Fin m)) (i : Fin m) (j : Fin n) :
+    invertMinimize (fun i => A (σ i)) o i j = invertMinimize A o (σ i) j := rfl
+theorem invertMinimize_col_perm (A : Mat m n α) (o : Vec n Obj) (τ : Equiv.Perm (Fin n)) (i : Fin m) (j : Fin n) :
+    invertMinimize (fun i j => A i (τ j)) (o ∘ τ) i j = invertMinimize A o i (τ j) := rfl
+
+/-! ### 7.2 the weights: the weight follows its criterion, and never sees the alternatives -/
+
+/-- SumScaler on the weights -/
+theorem sumScale_weights_perm (w : Vec n α) (τ : Equiv.Perm (Fin n)) (j : Fin n) :
+    scaleBySumV (w ∘ τ) j = scaleBySumV w (τ j) := scaleBySumV_perm w τ j
+/-- VectorScaler on the weights -/
+theorem vectorScale_weights_perm [MathFns α] (w : Vec n α) (τ : Equiv.Perm (Fin n)) (j : Fin n) :
+    scaleByVectorV (w ∘ τ) j = scaleByVectorV w (τ j) := scaleByVectorV_perm w τ j
+/-- MaxAbsScaler on the weights (`_run_sklearn_scaler`: one column, the same estimator, flattened) -/
+theorem maxAbsScale_weights_perm [NeZero n] (w : Vec n α) (τ : Equiv.Perm (Fin n)) (j : Fin n) :
+    runSklearnV maxAbsScale (w ∘ τ) j = runSklearnV maxAbsScale w (τ j) :=
+  runSklearnV_perm maxAbsScale (fun B ρ i k => maxAbsScale_rowPerm B ρ i k) w τ j
+/-- MinMaxScaler on the weights -/
+theorem minMaxScale_weights_perm [NeZero n] (lo hi : α) (clip : Bool) (w : Vec n α) (τ : Equiv.Perm (Fin n)) (j : Fin n) :
+    runSklearnV (minMaxScale lo hi clip) (w ∘ τ) j = runSklearnV (minMaxScale lo hi clip) w (τ j) :=
+  runSklearnV_perm (minMaxScale lo hi clip) (fun B ρ i k => minMaxScale_rowPerm lo hi clip B ρ i k) w τ j
+/-- StandarScaler on the weights -/
+theorem standardScale_weights_perm [MathFns α] (withMean withStd : Bool) (w : Vec n α) (τ : Equiv.Perm (Fin n)) (j : Fin n) :
+    runSklearnV (standardScale withMean withStd) (w ∘ τ) j = runSklearnV (standardScale withMean withStd) w (τ j) :=
+  runSklearnV_perm (standardScale withMean withStd) (fun B ρ i k => standardScale_rowPerm withMean withStd B ρ i k) w τ j
+/-- PushNegatives on the weights -/
+theorem pushNegatives_weights_perm [NeZero n] (w : Vec n α) (τ : Equiv.Perm (Fin n)) (j : Fin n) :
+    pushNegativesV (w ∘ τ) j = pushNegativesV w (τ j) := pushNegativesV_perm w τ j
+/-- AddValueToZero on the weights -/
+theorem addValueToZero_weights_perm (v : α) (w : Vec n α) (τ : Equiv.Perm (Fin n)) (j : Fin n) :
+    addValueToZeroV v (w ∘ τ) j = addValueToZeroV v w (τ j) := addValueToZeroV_perm v w τ j
+
+/-- listing the alternatives in another order changes no weight: whatever the class (every matrix-and-weights
+transformer is `transformData t fM fW`) and the target, the new weights are a function of the old weights only -/
+theorem scaler_weights_ignore_alternatives (t : Target) (fM : Mat m n α → Mat m n α) (fW : Vec n α → Vec n α)
+    (σ : Equiv.Perm (Fin m)) (d : Data m n α) :
+    (transformData t fM fW (d.permute σ 1)).weights = (transformData t fM fW d).weights :=
+  transformData_weights_row_invariant t fM fW σ d
+/-- CenitDistanceMatrixScaler and the two inverters hand the weights on untouched -/
+theorem matrix_only_weights_unchanged [NeZero m] (d : Data m n α) :
+    (cenitDistanceMatrixScaler d).weights = d.weights ∧ (negateMinimizer d).weights = d.weights ∧
+    (invertMinimizer d).weights = d.weights := ⟨rfl, rfl, rfl⟩
+
+/-! ### 7.3 the classes on `Data m n α`
+`d.permute σ τ` (`Skc/Proofs/TransformPerm.lean`): matrix rows by `σ`, columns by `τ`, objectives and
+weights by `τ`.  `F (d.permute σ τ) = (F d).permute σ τ` is an equality of decision data; read part by
+part through `permute_parts` it says: entry `(i, j)` of the transformed permuted matrix is entry
+`(σ i, τ j)` of the transformed original matrix, and likewise for objectives and weights. -/
+
+/-- what `permute` does, part by part -/
+theorem permute_parts (σ : Equiv.Perm (Fin m)) (τ : Equiv.Perm (Fin n)) (d : Data m n α) :
+    (∀ i j, (d.permute σ τ).matrix i j = d.matrix (σ i) (τ j)) ∧
+    (∀ j, (d.permute σ τ).objectives j = d.objectives (τ j)) ∧
+    (∀ j, (d.permute σ τ).weights j = d.weights (τ j)) := ⟨fun _ _ => rfl, fun _ => rfl, fun _ => rfl⟩
+
+/-- `permute` loses nothing: it is undone by the inverse orders -/
+theorem permute_undo (σ : Equiv.Perm (Fin m)) (τ : Equiv.Perm (Fin n)) (d : Data m n α) :
+    (d.permute σ τ).permute σ⁻¹ τ⁻¹ = d := Data.permute_symm σ τ d
+
+theorem sumScaler_permute (t : Target) (σ : Equiv.Perm (Fin m)) (τ : Equiv.Perm (Fin n)) (d : Data m n α) :
+    sumScaler t (d.permute σ τ) = (sumScaler t d).permute σ τ :=
+  transformData_permute t _ _ (both_of_row_col scaleBySumM_rowPerm fun _ _ _ _ => rfl) scaleBySumV_perm σ τ d
+
+theorem vectorScaler_permute [MathFns α] (t : Target) (σ : Equiv.Perm (Fin m)) (τ : Equiv.Perm (Fin n)) (d : Data m n α) :
+    vectorScaler t (d.permute σ τ) = (vectorScaler t d).permute σ τ :=
+  transformData_permute t _ _ (both_of_row_col scaleByVectorM_rowPerm fun _ _ _ _ => rfl) scaleByVectorV_perm σ τ d
+
+theorem maxAbsScaler_permute [NeZero m] [NeZero n] (t : Target) (σ : Equiv.Perm (Fin m)) (τ : Equiv.Perm (Fin n))
+    (d : Data m n α) : maxAbsScaler t (d.permute σ τ) = (maxAbsScaler t d).permute σ τ :=
+  transformData_permute t _ _ (both_of_row_col maxAbsScale_rowPerm fun _ _ _ _ => rfl)
+    (fun w ρ j => maxAbsScale_weights_perm w ρ j) σ τ d
+
+/-- what `MinMaxScaler` computes once scikit-learn has accepted `criteria_range` -/
+def minMaxData [NeZero m] [NeZero n] (lo hi : α) (clip : Bool) (t : Target) (d : Data m n α) : Data m n α :=
+  transformData t (minMaxScale lo hi clip) (runSklearnV (minMaxScale lo hi clip)) d
+
+theorem minMaxScaler_ok [NeZero m] [NeZero n] {lo hi : α} (hlh : lo < hi) (clip : Bool) (t : Target) (d : Data m n α) :
+    minMaxScaler lo hi clip t d = .ok (minMaxData lo hi clip t d) := by
+  have h : minMaxRefuses lo hi = false := by simp [minMaxRefuses, hlh]
+  simp [minMaxScaler, minMaxData, h]
+
+theorem minMaxData_permute [NeZero m] [NeZero n] (lo hi : α) (clip : Bool) (t : Target) (σ : Equiv.Perm (Fin m))
+    (τ : Equiv.Perm (Fin n)) (d : Data m n α) :
+    minMaxData lo hi clip t (d.permute σ τ) = (minMaxData lo hi clip t d).permute σ τ :=
+  transformData_permute t _ _ (both_of_row_col (minMaxScale_rowPerm lo hi clip) fun _ _ _ _ => rfl)
+    (fun w ρ j => minMaxScale_weights_perm lo hi clip w ρ j) σ τ d
+
+/-- `MinMaxScaler`, refusal included: refused in one presentation iff refused in the other (the check
+reads `criteria_range` only), otherwise the results correspond -/
+theorem minMaxScaler_permute [NeZero m] [NeZero n] (lo hi : α) (clip : Bool) (t : Target) (σ : Equiv.Perm (Fin m))
+    (τ : Equiv.Perm (Fin n)) (d : Data m n α) :
+    minMaxScaler lo hi clip t (d.permute σ τ) = (minMaxScaler lo hi clip t d).map (Data.permute σ τ) := by
+  unfold minMaxScaler
+  split
+  · rfl
+  · exact congrArg Except.ok (minMaxData_permute lo hi clip t σ τ d)
+
+theorem standarScaler_permute [MathFns α] (withMean withStd : Bool) (t : Target) (σ : Equiv.Perm (Fin m))
+    (τ : Equiv.Perm (Fin n)) (d : Data m n α) :
+    standarScaler withMean withStd t (d.permute σ τ) = (standarScaler withMean withStd t d).permute σ τ :=
+  transformData_permute t _ _ (both_of_row_col (standardScale_rowPerm withMean withStd) fun _ _ _ _ => rfl)
+    (fun w ρ j => standardScale_weights_perm withMean withStd w ρ j) σ τ d
+
+theorem pushNegatives_permute [NeZero m] [NeZero n] (t : Target) (σ : Equiv.Perm (Fin m)) (τ : Equiv.Perm (Fin n))
+    (d : Data m n α) : pushNegatives t (d.permute σ τ) = (pushNegatives t d).permute σ τ :=
+  transformData_permute t _ _ (both_of_row_col pushNegativesM_rowPerm fun _ _ _ _ => rfl) pushNegativesV_perm σ τ d
+
+theorem addValueToZero_permute (v : α) (t : Target) (σ : Equiv.Perm (Fin m)) (τ : Equiv.Perm (Fin n)) (d : Data m n α) :
+    addValueToZero v t (d.permute σ τ) = (addValueToZero v t d).permute σ τ :=
+  transformData_permute t _ _ (both_of_row_col (addValueToZeroM_rowPerm v) fun _ _ _ _ => rfl)
+    (addValueToZeroV_perm v) σ τ d
+
+theorem cenitDistanceMatrixScaler_permute [NeZero m] (σ : Equiv.Perm (Fin m)) (τ : Equiv.Perm (Fin n)) (d : Data m n α) :
+    cenitDistanceMatrixScaler (d.permute σ τ) = (cenitDistanceMatrixScaler d).permute σ τ :=
+  Data.ext_parts
+    (fun i j => both_of_row_col_obj cenitScale_rowPerm (fun _ _ _ _ _ => rfl) d.matrix d.objectives σ τ i j)
+    (fun _ => rfl) (fun _ => rfl)
+
+/-- the inverters: the matrix cell-wise, and the objectives become all-`MAX` in both presentations -/
+theorem negateMinimizer_permute (σ : Equiv.Perm (Fin m)) (τ : Equiv.Perm (Fin n)) (d : Data m n α) :
+    negateMinimizer (d.permute σ τ) = (negateMinimizer d).permute σ τ := rfl
+theorem invertMinimizer_permute (σ : Equiv.Perm (Fin m)) (τ : Equiv.Perm (Fin n)) (d : Data m n α) :
+    invertMinimizer (d.permute σ τ) = (invertMinimizer d).permute σ τ := rfl
+
+/-! ### 7.4 pipelines
+`PermStep m n α` (`Skc/Proofs/TransformPerm.lean`): a function on decision data together with the proof
+that it commutes with every `permute σ τ`; `runAll steps` applies the steps in order. -/
+
+def sumStep (t : Target) : PermStep m n α := ⟨sumScaler t, sumScaler_permute t⟩
+def vectorStep [MathFns α] (t : Target) : PermStep m n α := ⟨vectorScaler t, vectorScaler_permute t⟩
+def maxAbsStep [NeZero m] [NeZero n] (t : Target) : PermStep m n α := ⟨maxAbsScaler t, maxAbsScaler_permute t⟩
+def minMaxStep [NeZero m] [NeZero n] (lo hi : α) (clip : Bool) (t : Target) : PermStep m n α :=
+  ⟨minMaxData lo hi clip t, minMaxData_permute lo hi clip t⟩
+def standardStep [MathFns α] (withMean withStd : Bool) (t : Target) : PermStep m n α :=
+  ⟨standarScaler withMean withStd t, standarScaler_permute withMean withStd t⟩
+def pushNegStep [NeZero m] [NeZero n] (t : Target) : PermStep m n α := ⟨pushNegatives t, pushNegatives_permute t⟩
+def addZeroStep (v : α) (t : Target) : PermStep m n α := ⟨addValueToZero v t, addValueToZero_permute v t⟩
+def cenitStep [NeZero m] : PermStep m n α := ⟨cenitDistanceMatrixScaler, cenitDistanceMatrixScaler_permute⟩
+def negateStep : PermStep m n α := ⟨negateMinimizer, negateMinimizer_permute⟩
+def invertStep : PermStep m n α := ⟨invertMinimizer, invertMinimizer_permute⟩
+
+/-- the composed pipeline commutes with the reordering: run on the problem written down in the order
+`σ`, `τ`, it returns what it returns on the original problem, written down in the order `σ`, `τ` -/
+theorem pipeline_permute (steps : List (PermStep m n α)) (σ : Equiv.Perm (Fin m)) (τ : Equiv.Perm (Fin n))
+    (d : Data m n α) : runAll steps (d.permute σ τ) = (runAll steps d).permute σ τ :=
+  runAll_permute steps σ τ d
+
+/-- the same for one fixed pair `σ`, `τ` and arbitrary functions that commute with it (no structure needed) -/
+theorem pipeline_permute_of_commutes (σ : Equiv.Perm (Fin m)) (τ : Equiv.Perm (Fin n))
+    (fs : List (Data m n α → Data m n α))
+    (h : ∀ f ∈ fs, ∀ d : Data m n α, f (d.permute σ τ) = (f d).permute σ τ) (d : Data m n α) :
+    runFns fs (d.permute σ τ) = (runFns fs d).permute σ τ := runFns_permute σ τ fs h d
+
+/-- a method applied to decision data: it reads matrix, objectives and weights -/
+def scoreWith {β : Type} (K : Mat m n α → Vec n Obj → Vec n α → Vec m β) (d : Data m n α) : Vec m β :=
+  K d.matrix d.objectives d.weights
+
+/-- pipeline, then a method `K` whose scores follow the alternatives (`hrow`) and ignore the order of
+the criteria (`hcol`): the alternative at position `i` of the permuted problem — alternative `σ i` of the
+original — gets the score it gets in the original problem -/
+theorem pipeline_score_presentation {β : Type} (steps : List (PermStep m n α))
+    (K : Mat m n α → Vec n Obj → Vec n α → Vec m β) (σ : Equiv.Perm (Fin m)) (τ : Equiv.Perm (Fin n))
+    (hrow : ∀ A o w i, K (fun i => A (σ i)) o w i = K A o w (σ i))
+    (hcol : ∀ A o w, K (fun i j => A i (τ j)) (fun j => o (τ j)) (fun j => w (τ j)) = K A o w)
+    (d : Data m n α) (i : Fin m) :
+    scoreWith K (runAll steps (d.permute σ τ)) i = scoreWith K (runAll steps d) (σ i) := by
+  rw [pipeline_permute]
+  have h1 := hcol (fun i => (runAll steps d).matrix (σ i)) (runAll steps d).objectives (runAll steps d).weights
+  exact (congrFun h1 i).trans (hrow (runAll steps d).matrix (runAll steps d).objectives (runAll steps d).weights i)
+
+/-- … hence the same dense rank, in either direction -/
+theorem pipeline_rank_presentation (steps : List (PermStep m n α))
+    (K : Mat m n α → Vec n Obj → Vec n α → Vec m α) (σ : Equiv.Perm (Fin m)) (τ : Equiv.Perm (Fin n))
+    (hrow : ∀ A o w i, K (fun i => A (σ i)) o w i = K A o w (σ i))
+    (hcol : ∀ A o w, K (fun i j => A i (τ j)) (fun j => o (τ j)) (fun j => w (τ j)) = K A o w)
+    (rev : Bool) (d : Data m n α) (i : Fin m) :
+    rankVec rev (scoreWith K (runAll steps (d.permute σ τ))) i = rankVec rev (scoreWith K (runAll steps d)) (σ i) := by
+  rw [show scoreWith K (runAll steps (d.permute σ τ)) = fun i => scoreWith K (runAll steps d) (σ i)
+    from funext (pipeline_score_presentation steps K σ τ hrow hcol d)]
+  exact rankVec_perm rev _ σ i
+
+/-- … and looked up *by name* in the result `evaluate` builds, every alternative has the same score in
+both presentations (`alts` names the alternatives of the original problem; the permuted problem lists
+the names in the order `σ` too) -/
+theorem pipeline_score_by_name {β : Type} (steps : List (PermStep m n α))
+    (K : Mat m n α → Vec n Obj → Vec n α → Vec m β) (σ : Equiv.Perm (Fin m)) (τ : Equiv.Perm (Fin n))
+    (hrow : ∀ A o w i, K (fun i => A (σ i)) o w i = K A o w (σ i))
+    (hcol : ∀ A o w, K (fun i j => A i (τ j)) (fun j => o (τ j)) (fun j => w (τ j)) = K A o w)
+    (alts : Fin m → String) (ha : Function.Injective alts) (d : Data m n α) (k : Fin m) :
+    (mkResult (List.ofFn fun i => alts (σ i)) (List.ofFn (scoreWith K (runAll steps (d.permute σ τ))))).valueOf (alts k) =
+      (mkResult (List.ofFn alts) (List.ofFn (scoreWith K (runAll steps d)))).valueOf (alts k) := by
+  rw [show scoreWith K (runAll steps (d.permute σ τ)) = fun i => scoreWith K (runAll steps d) (σ i)
+    from funext (pipeline_score_presentation steps K σ τ hrow hcol d)]
+  exact evaluate_row_perm_by_name alts ha _ σ k
+
+/-! ### 7.5 concrete pipelines -/
+
+/-- SumScaler → WSM -/
+theorem sumScaler_wsm_presentation (t : Target) (σ : Equiv.Perm (Fin m)) (τ : Equiv.Perm (Fin n)) (d : Data m n α)
+    (i : Fin m) :
+    wsm (sumScaler t (d.permute σ τ)).matrix (sumScaler t (d.permute σ τ)).weights i =
+      wsm (sumScaler t d).matrix (sumScaler t d).weights (σ i) :=
+  pipeline_score_presentation [sumStep t] (fun A _ w => wsm A w) σ τ (fun _ _ _ _ => rfl)
+    (fun A _ w => wsm_col_perm A w τ) d i
+
+/-- MinMaxScaler → NegateMinimize → TOPSIS (field metrics) -/
+theorem minMax_negate_topsisQ_presentation [NeZero m] [NeZero n] (μ : Metric) (lo hi : α) (clip : Bool) (t : Target)
+    (σ : Equiv.Perm (Fin m)) (τ : Equiv.Perm (Fin n)) (d : Data m n α) (i : Fin m) :
+    scoreWith (topsisQ μ) (negateMinimizer (minMaxData lo hi clip t (d.permute σ τ))) i =
+      scoreWith (topsisQ μ) (negateMinimizer (minMaxData lo hi clip t d)) (σ i) :=
+  pipeline_score_presentation [minMaxStep lo hi clip t, negateStep] (topsisQ μ) σ τ
+    (fun A o w i => topsisQ_row_perm μ A o w σ i) (fun A o w => topsisQ_col_perm μ A o w τ) d i
+
+/-- … and its ranking (`rank_values(similarity, reverse=True)`) -/
+theorem minMax_negate_topsisQ_rank_presentation [NeZero m] [NeZero n] (μ : Metric) (lo hi : α) (clip : Bool) (t : Target)
+    (σ : Equiv.Perm (Fin m)) (τ : Equiv.Perm (Fin n)) (d : Data m n α) (i : Fin m) :
+    rankVec true (scoreWith (topsisQ μ) (negateMinimizer (minMaxData lo hi clip t (d.permute σ τ)))) i =
+      rankVec true (scoreWith (topsisQ μ) (negateMinimizer (minMaxData lo hi clip t d))) (σ i) :=
+  pipeline_rank_presentation [minMaxStep lo hi clip t, negateStep] (topsisQ μ) σ τ
+    (fun A o w i => topsisQ_row_perm μ A o w σ i) (fun A o w => topsisQ_col_perm μ A o w τ) true d i
+
+end field
+
+/-! ### 7.6 over `ℝ`: the weighters (`Props/C13.lean`) as steps, and TOPSIS with every metric -/
+
+/-- the weighters' `Data` (`Skc/Model/Weighters.lean`) has the same three fields as the scalers' -/
+def toWeighterData {α : Type} (d : Data m n α) : Weighters.Data m n α := ⟨d.matrix, d.objectives, d.weights⟩
+def ofWeighterData {α : Type} (d : Weighters.Data m n α) : Data m n α := ⟨d.matrix, d.objectives, d.weights⟩
+
+/-- `SKCWeighterABC._transform_data` on the scalers' `Data` -/
+noncomputable def weighterRun [NeZero m] (W : Weighters.Weighter ℝ) (d : Data m n ℝ) : Data m n ℝ :=
+  ofWeighterData (W.transformData (toWeighterData d))
+
+/-- EqualWeighter, StdWeighter, EntropyWeighter, CRITIC: matrix and objectives pass through, the new weights
+follow their criteria and do not depend on the order of the alternatives
+(`C13.weighter_row_perm`, `C13.weighter_col_perm`) -/
+theorem weighter_permute [NeZero m] (W : Weighters.Weighter ℝ) (σ : Equiv.Perm (Fin m)) (τ : Equiv.Perm (Fin n))
+    (d : Data m n ℝ) : weighterRun W (d.permute σ τ) = (weighterRun W d).permute σ τ := by
+  apply Data.ext_parts
+  · intro i j; rfl
+  · intro j; rfl
+  · intro j
+    have h := C13.weighter_row_perm W (fun i j => d.matrix i (τ j)) (fun j => d.objectives (τ j))
+      (fun j => d.weights (τ j)) σ
+    exact (congrFun h j).trans (C13.weighter_col_perm W d.matrix d.objectives d.weights τ j)
+
+noncomputable def weighterStep [NeZero m] (W : Weighters.Weighter ℝ) : PermStep m n ℝ := ⟨weighterRun W, weighter_permute W⟩
+
+/-- any pipeline of scalers, inverters and weighters, then TOPSIS with any metric: every alternative keeps
+its similarity index … -/
+theorem pipeline_topsis_presentation [NeZero m] [NeZero n] (steps : List (PermStep m n ℝ)) (μ : Metric)
+    (σ : Equiv.Perm (Fin m)) (τ : Equiv.Perm (Fin n)) (d : Data m n ℝ) (i : Fin m) :
+    scoreWith (topsis μ) (runAll steps (d.permute σ τ)) i = scoreWith (topsis μ) (runAll steps d) (σ i) :=
+  pipeline_score_presentation steps (topsis μ) σ τ (fun A o w i => topsis_row_perm μ A o w σ i)
+    (fun A o w => topsis_col_perm μ A o w τ) d i
+
+/-- … and its rank -/
+theorem pipeline_topsis_rank_presentation [NeZero m] [NeZero n] (steps : List (PermStep m n ℝ)) (μ : Metric)
+    (σ : Equiv.Perm (Fin m)) (τ : Equiv.Perm (Fin n)) (d : Data m n ℝ) (i : Fin m) :
+    rankVec true (scoreWith (topsis μ) (runAll steps (d.permute σ τ))) i =
+      rankVec true (scoreWith (topsis μ) (runAll steps d)) (σ i) :=
+  pipeline_rank_presentation steps (topsis μ) σ τ (fun A o w i => topsis_row_perm μ A o w σ i)
+    (fun A o w => topsis_col_perm μ A o w τ) true d i
+
+/-- VectorScaler → CRITIC → NegateMinimize → TOPSIS (Euclidean), spelled out -/
+theorem vector_critic_negate_topsis_presentation [NeZero m] [NeZero n] (c : Weighters.Corr) (scale : Bool)
+    (σ : Equiv.Perm (Fin m)) (τ : Equiv.Perm (Fin n)) (d : Data m n ℝ) (i : Fin m) :
+    scoreWith (topsis .euclidean)
+        (negateMinimizer (weighterRun (.critic c scale) (vectorScaler .matrix (d.permute σ τ)))) i =
+      scoreWith (topsis .euclidean)
+        (negateMinimizer (weighterRun (.critic c scale) (vectorScaler .matrix d))) (σ i) :=
+  pipeline_topsis_presentation [vectorStep .matrix, weighterStep (.critic c scale), negateStep] .euclidean σ τ d i
+
+end transformers
 
 /-! ## non-vacuity -/
 section examples
